@@ -179,6 +179,25 @@ def check(ctx):
         elif m.get('result') != 'done' or m.get('ok') is not True or m.get('fs') != sc['fs']:
             sc_bad += 1
             ctx.violation('proof', 'the restore model does not return fsOf(archive) on an instance of restore_exact_selfcontained', {'case': desc}, found_input=False)
+    # the hypotheses of `restore_exact` (general case) on real storages: the model reads the stored group back into its
+    # logical description, checks that it renders to exactly what vsb stored, well-formedness and resolvability
+    # (`generalCheck`); where that holds, `restore_exact_checked` says the model's restore is the target's tree
+    gen_instances = gen_holds = gen_dedup = 0
+    for c, m in zip(cases, model):
+        if not isinstance(m, dict) or not isinstance(m.get('general'), dict):
+            continue
+        gen_instances += 1
+        g = m['general']
+        desc = {k: c[k] for k in ('history', 'after_run', 'group', 'backup')}
+        if not g.get('holds'):
+            ctx.violation('correspondence', 'a retained backup made by vsb (exit 0, nothing damaged) does not satisfy the hypotheses of restore_exact: '
+                          'the stored group is not the rendering of a well-formed, resolvable logical group', {'case': desc}, found_input=False)
+            continue
+        gen_holds += 1
+        gen_dedup += 1 if g.get('extern_files') else 0
+        key = lambda e: e['path']
+        if m.get('result') != 'done' or m.get('ok') is not True or sorted(m.get('fs', []), key=key) != sorted(g['fs'], key=key):
+            ctx.violation('proof', 'the restore model contradicts restore_exact_checked on a real instance', {'case': desc}, found_input=False)
     slim = [{k: v for k, v in c.items() if k not in ('contents', 'request')} for c in cases]
     st = core.judge(ctx, slim, mv, iv, lambda c, i: oracle(c), label='restore-exact')
     ctx.coverage.update({
@@ -188,6 +207,7 @@ def check(ctx):
                 'after every run every retained backup is restored; one evaluation = one restore; non-trivial = a restore made after at least one later run (rotation/deletion may have happened)',
         'samples': [{k: cases[0][k] for k in ('history', 'after_run', 'group', 'backup', 'rc')}],
         'correspondence': st, 'selfcontained_instances': sc_instances, 'selfcontained_hypothesis_failures': sc_bad,
+        'restore_exact_instances': gen_instances, 'restore_exact_hypotheses_hold': gen_holds, 'restore_exact_instances_with_deduplicated_files': gen_dedup,
         'disagreements_checked': st['cases'],
     })
     ctx.assumptions += ['restore runs as root; mtime of directories above the items is not compared (they change while other scenarios run)',
